@@ -298,6 +298,11 @@ def run(tier):
         tres = tlc.require_ok(tlc.run(os.path.join(SPEC, "MC_Text.tla"), 'INIT Init\nNEXT Next\nCONSTANTS Mode = "total"\nMaxBin = 0\nMaxLen = %d\nINVARIANT Total\n' % tl,
                                       os.path.join(wd, "mctext"), workers=16, timeout=1800), "MC_Text/total")
         rep.add_mc("MC_Text: the text-envelope reader is total over ALL character strings up to %d over {hex digits, non-hex letter, ':', blank, LF, CR}" % tl, tres)
+        hl = 6 if tier == "quick" else 8
+        hres = tlc.require_ok(tlc.run(os.path.join(SPEC, "MC_Bec2Header.tla"), "INIT Init\nNEXT Next\n" + C3.sw_cfg() + "MaxLen = %d\nINVARIANT HeaderTotal\nINVARIANT ReaderTotal\n" % hl,
+                                      os.path.join(wd, "mchdr"), workers=16, timeout=2400), "MC_Bec2Header")
+        rep.add_mc("MC_Bec2Header: BEC2 header reader and whole reader (without / with decryptors) total over ALL byte strings up to %d after the signature; "
+                   "accepted headers re-pack to the bytes read" % hl, hres, {"MaxLen": hl, "alphabet": 6})
         # the reader as an explicit step machine: refines the functional reader, terminates, variant decreases
         for ml, sd in (((4, "FALSE"),) if tier == "quick" else ((5, "FALSE"), (2, "TRUE"))):
             rcfg = ("SPECIFICATION Spec\n" + C3.sw_cfg() + "MaxLen = %d\nSeeded = %s\nINVARIANT Refines\nINVARIANT OutcomeClass\n"
